@@ -41,6 +41,7 @@ def gen_program(seed, idx, tier):
     if rs.below(2):
         g.targets = ["q", "r", "nd", "nr"]
     g.on_reset = rs.below(4) == 0
+    g.push = rs.below(3) == 0
     return g.program()
 
 
